@@ -56,6 +56,10 @@ func newStringExtractor(position stringExtractorPosition, patternParts []string,
 	case len(targetWildcard) == 0:
 		return emptyExtractor, fmt.Errorf("patternParts[1] must not be empty")
 	case targetWildcard == "*":
+		// the wildcard ends at the boundary on its far side: without one nothing would end it (use [...] instead)
+		if (position == extractFromStart && len(rightBoundary) == 0) || (position == extractFromEnd && len(leftBoundary) == 0) {
+			return emptyExtractor, fmt.Errorf("'*' needs a boundary after it when extracting from start, or before it when extracting from end")
+		}
 		validCharTable = nil
 	case len(targetWildcard) < 2 || targetWildcard[0] != '[' || targetWildcard[len(targetWildcard)-1] != ']':
 		return emptyExtractor, fmt.Errorf("patternParts[1] must be '*' or '[...]'")
